@@ -268,6 +268,80 @@ m('px_from_posit_negated','C12','src/quire32/convert.rs',
         q -= (a, PxE2::ONE);
         q""",
   note='Q32E2::from(PxE2<N>) loads -p')
+m('px_facade_clear_noop','C12','src/quire32.rs',
+  """        ops::fdp(self, ui_a, ui_b, false);
+    }
+    fn clear(&mut self) {
+        Self::clear(self)
+    }
+    fn neg(&mut self) {
+        Self::neg(self)
+    }
+}
+
+use core::fmt;
+impl fmt::Display for Q32E2 {""",
+  """        ops::fdp(self, ui_a, ui_b, false);
+    }
+    fn clear(&mut self) {
+        let _ = self;
+    }
+    fn neg(&mut self) {
+        Self::neg(self)
+    }
+}
+
+use core::fmt;
+impl fmt::Display for Q32E2 {""",
+  note='Quire<PxE2<N>>::clear for Q32E2 does nothing')
+m('px_facade_neg_noop','C12','src/quire32.rs',
+  """        ops::fdp(self, ui_a, ui_b, false);
+    }
+    fn clear(&mut self) {
+        Self::clear(self)
+    }
+    fn neg(&mut self) {
+        Self::neg(self)
+    }
+}
+
+use core::fmt;
+impl fmt::Display for Q32E2 {""",
+  """        ops::fdp(self, ui_a, ui_b, false);
+    }
+    fn clear(&mut self) {
+        Self::clear(self)
+    }
+    fn neg(&mut self) {
+        let _ = self;
+    }
+}
+
+use core::fmt;
+impl fmt::Display for Q32E2 {""",
+  note='Quire<PxE2<N>>::neg for Q32E2 does nothing')
+m('px_facade_is_nar_is_zero','C04','src/quire32.rs',
+  """    fn is_nar(&self) -> bool {
+        Self::is_nar(self)
+    }
+    fn add_product(&mut self, p_a: PxE2<{ N }>, p_b: PxE2<{ N }>) {""",
+  """    fn is_nar(&self) -> bool {
+        Self::is_zero(self)
+    }
+    fn add_product(&mut self, p_a: PxE2<{ N }>, p_b: PxE2<{ N }>) {""",
+  note='Quire<PxE2<N>>::is_nar for Q32E2 forwards to is_zero')
+m('px_facade_from_bits_drops_limb7','C12','src/quire32.rs',
+  """    fn to_posit(&self) -> PxE2<{ N }> {
+        PxE2::<{ N }>::from(self)
+    }
+    fn from_bits(v: Self::Bits) -> Self {
+        Self::from_bits(v)""",
+  """    fn to_posit(&self) -> PxE2<{ N }> {
+        PxE2::<{ N }>::from(self)
+    }
+    fn from_bits(v: Self::Bits) -> Self {
+        Self::from_bits([v[0], v[1], v[2], v[3], v[4], v[5], v[6], 0])""",
+  note='Quire<PxE2<N>>::from_bits for Q32E2 zeroes the lowest limb')
 # ---------------- C19
 m('p32_range_end_inclusive','C19','src/p32e2.rs',
   "rng.gen_range(0x_4000_0000_u32..0x_4800_0000);","rng.gen_range(0x_4000_0000_u32..=0x_4800_0000);",
